@@ -71,7 +71,41 @@ def integration_cases(n, seed):
         ub = np.where(rng.uniform(size=m) < 0.5, 1.0, np.inf)
         x0 = np.clip(rng.uniform(-3, 3, size=m), lb, ub)
         out.append(("boxqp%d" % k, BoxQP(Q, -Q @ xs, lb, ub), x0, np.zeros(0)))
+    # pinned variables that must be released later: var 0 starts at a bound with the flow pointing outward, the coupling
+    # with the free var 1 (which starts far from its optimum) flips the sign of its gradient component on the way
+    for k in range(max(4, n // 3)):
+        c = [0.5, -0.5, 0.25][k % 3]
+        Q = np.array([[1.0, c], [c, 1.0]])
+        side = k % 2                               # 0: pinned at the lower bound, 1: at the upper bound
+        lo, hi = [(0.0, 1.0), (-1.0, 1.0), (-2.0, 0.5)][(k // 2) % 3]
+        xs0 = float(rng.uniform(lo + 0.2 * (hi - lo), hi - 0.2 * (hi - lo)))
+        xs1 = float(rng.uniform(-1, 1))
+        if side:
+            d1 = (-(hi - xs0) - 1.0) / c
+            start0 = hi
+        else:
+            d1 = ((xs0 - lo) + 1.0) / c
+            start0 = lo
+        lb = np.array([lo if (side == 0 or k % 4 < 2) else -np.inf, -np.inf])
+        ub = np.array([hi if (side == 1 or k % 4 < 2) else np.inf, np.inf])
+        xs = np.array([xs0, xs1])
+        out.append(("release%d" % k, BoxQP(Q, -Q @ xs, lb, ub), np.array([start0, xs1 + d1]), np.zeros(0)))
+    # start at the minimiser: Optimal by the residuum test at the first loop top
+    Q = gen.random_spd(rng, 2, cond=5.0)
+    xs = np.array([0.25, -0.5])
+    out.append(("atsolution", BoxQP(Q, -Q @ xs, -np.ones(2), np.ones(2)), xs.copy(), np.zeros(0)))
+    # an objective without lower bound: the Unbounded event
+    out.append(("linear", BoxQP(np.zeros((2, 2)), np.array([1.0, -2.0]), np.array([-np.inf, 0.0]), np.array([np.inf, np.inf])),
+                np.array([0.5, 0.5]), np.zeros(0)))
     return out
+
+
+def _plain(o):
+    if isinstance(o, dict):
+        return {str(k): _plain(v) for k, v in o.items()}
+    if isinstance(o, (list, tuple, set, frozenset)):
+        return [_plain(v) for v in (sorted(o) if isinstance(o, (set, frozenset)) else o)]
+    return o
 
 
 def main():
@@ -79,6 +113,30 @@ def main():
     chk.mc("KKTAbsMC.cfg", module="KKTAbsMC.tla")
     chk.mc("KKTAbsMC_witness.cfg", module="KKTAbsMC.tla", must_violate="SomeInternalKKT")
     chk.mc("IntegrationLoop.cfg", module="IntegrationLoop.tla")
+    # kernel of the flow-integration solver (free set at a point, event triggers, which event decides): every case of
+    # FlowFilter.tla replayed exactly on IntegrationSolver.create_filter / create_event_triggers / handle_events
+    from harness import flowdriver
+    fstates = chk.mc_dump("FlowFilter.cfg" if chk.thorough else "FlowFilter_q.cfg", "FlowFilter.tla")
+    if fstates is not None:
+        stride = 4 if chk.thorough else 1
+        for si, st in enumerate(fstates):
+            if si % stride and st["what"] == "filter":
+                continue
+            try:
+                bad = flowdriver.run_state(st)
+            except AssertionError as e:
+                if str(e).startswith("realisation"):
+                    chk.machinery.append("flowdriver: %s" % e)
+                    break
+                bad = {"what": "assertion", "error": repr(e)[:200]}
+            except Exception as e:  # noqa
+                bad = {"what": "exception", "error": repr(e)[:200]}
+            chk.case(("flow", si))
+            if bad is not None and bad.get("level", "P") == "M":
+                chk.drift["flow." + bad["what"]] = chk.drift.get("flow." + bad["what"], 0) + 1
+            elif bad is not None:
+                chk.kernel_violation(("flow." + bad["what"],), {"case": _plain(st["case"]), "detail": _plain(bad)})
+        chk.traces += len(fstates) // stride
     chk.mc("GF_small.cfg" if chk.thorough else "GF_q_small.cfg")
     br = chk.tv(groups(1500 if chk.thorough else 110, chk.seed), "C01 sweep")
     nopt = br.statuses.get("Optimal", 0)
@@ -89,7 +147,7 @@ def main():
     from harness.record_integration import TracedIntegrationSolver, events_of
     recs = []
     nint = 0
-    for k, (name, prob, x0, y0) in enumerate(integration_cases(60 if chk.thorough else 10, chk.seed)):
+    for k, (name, prob, x0, y0) in enumerate(integration_cases(120 if chk.thorough else 22, chk.seed)):
         params = Params(iteration_limit=[200, 3, 1, 200][k % 4], rho=1e-2)
         sol = TracedIntegrationSolver(prob, params)
         try:
@@ -123,6 +181,39 @@ def main():
                     chk.other_notes[tag + ":integration." + cname] = chk.other_notes.get(tag + ":integration." + cname, 0) + 1
             chk.traces += nint
             chk.cov["integration_events"] = len(recs)
+            # binding self-test: corrupt one logged field of an active-set event / of a loop top; TLC must object there
+            import copy
+            tests = []
+            ie = next((i for i, r in enumerate(recs) if r["ev"] == "Integrate" and r["result"] == "Event"), None)
+            if ie is not None:
+                bad = copy.deepcopy(recs)
+                bad[ie]["j"] = 99
+                tests.append(("event.index", bad, ie + 1, {"event.trigger.side", "event.flips.one"}))
+            it = next((i for i, r in enumerate(recs) if r["ev"] == "Top" and r["status"] == "Optimal"), None)
+            if it is not None:
+                bad = copy.deepcopy(recs)
+                bad[it]["resLe"] = False
+                tests.append(("top.residuum", bad, it + 1, {"optimal.iff.residuum"}))
+            passed = []
+            for tname, bad, line, expect in tests:
+                with open(path, "w") as f:
+                    for r in bad:
+                        f.write(json.dumps(r) + "\n")
+                vb = tlc.validate_trace(path, module="IntegrationTrace.tla", cfg="IntegrationTrace.cfg", envvar="IG_TRACE")
+                hit = {cn for (ln, tg, cn) in vb["notes"] if ln == line}
+                if hit & expect:
+                    passed.append(tname)
+                else:
+                    chk.machinery.append("integration binding self-test %s: corrupted line %d not objected to (%s)" % (tname, line, sorted(hit)))
+            chk.cov["integration_binding_selftest"] = passed
+            hist = {}
+            for r in recs:
+                if r["ev"] == "Integrate":
+                    key = r["result"] + ("/" + r["trig"] if r["trig"] != "none" else "")
+                    hist[key] = hist.get(key, 0) + 1
+            chk.cov["integration_outcomes"] = hist
+            if not any(k.startswith("Event/") for k in hist):
+                chk.machinery.append("no active-set event in any integration trace: the free-set clauses would be vacuous")
             chk.samples.append({"integration_trace_head": recs[:6]})
         except tlc.TLCFailure as e:
             chk.machinery.append(str(e)[-1200:])
